@@ -73,6 +73,34 @@ func checkC01(c *Check) {
 			ok1++
 		}
 		ref, has := c01OpTable[v.Op]
+		// no numeric or comparison operator narrows a Kommazahl operand to an integer: when one operand is a Kommazahl
+		// the operation is carried out on Kommazahlen (this also covers `x zwischen a und b`, which has no table row)
+		if has || v.Op == "TER_BETWEEN" {
+			narrowed := ""
+			for _, o := range v.Gen.Outcomes {
+				if len(o.CErr) > 0 || o.Ret == nil {
+					continue
+				}
+				var walk func(n *IRVal, depth int)
+				walk = func(n *IRVal, depth int) {
+					if n == nil || depth > 12 || narrowed != "" {
+						return
+					}
+					if (n.Op == "fptosi" || n.Op == "fptoui") && len(n.Args) == 1 {
+						narrowed = strings.Join(n.Args[0].prov(), "+")
+					}
+					for _, a := range n.Args {
+						walk(a, depth+1)
+					}
+				}
+				walk(o.Ret, 0)
+			}
+			if narrowed != "" {
+				bad4[gk] = append(bad4[gk], v.Key)
+				msg4[gk] = "the Kommazahl operand '" + narrowed + "' is truncated to an integer before the operation (the operation must be carried out on Kommazahlen when one operand is a Kommazahl)"
+				continue
+			}
+		}
 		if !has {
 			continue
 		}
